@@ -450,7 +450,13 @@ impl<'a> G<'a> {
             4 if !self.list_vars.is_empty() => {
                 let lv = self.rng.pick(&self.list_vars).clone();
                 let op = *self.rng.pick(&["+", "-"]);
-                self.line(indent, &format!("{m} linc {{{lv} {op} {a}}}"));
+                if a == "-2147483647" {
+                    // i32::MIN has no literal: shifting a list by it must wrap like every other offset
+                    self.line(indent, &format!("~ temp lo_{m} = -2147483647 - 1"));
+                    self.line(indent, &format!("{m} lincmin {{{lv} {op} lo_{m}}} {{{lv} - lo_{m}}}"));
+                } else {
+                    self.line(indent, &format!("{m} linc {{{lv} {op} {a}}}"));
+                }
             }
             5 if !self.list_vars.is_empty() && !self.funcs.is_empty() => {
                 // a list next to a function result (void when the function has no return)
